@@ -57,6 +57,17 @@ Theorem C32_block_rather_than_fail : forall s t kind a b ns s' e x x', reachable
 Proof. exact block_rather_than_fail. Qed.
 Print Assumptions C32_block_rather_than_fail.
 
+(* the picker in use is the latest one the channel's CURRENT LB policy published: a picker
+   published through a balancer wrapper that idle entry has closed (op [11;o], o <> 0) changes
+   nothing - no thread moves, no Pick call is made on it -, publishing through the current
+   wrapper is updatePicker, idle entry is reset (picks wait for a picker of the new policy) *)
+Theorem C32_closed_policy_publish_is_noop : forall s o, o <> 0 -> step s [11; o] = (s, []).
+Proof. exact closed_policy_publish_noop. Qed.
+Print Assumptions C32_closed_policy_publish_is_noop.
+Theorem C32_enter_idle_is_reset : forall s, step s [12] = dstep s DReset.
+Proof. exact enter_idle_is_reset. Qed.
+Print Assumptions C32_enter_idle_is_reset.
+
 (* The executable predicate evaluated on implementation traces holds on every model trace,
    for every configuration and every op list. *)
 Theorem C32_holds_on_every_model_trace : forall cfg ops s0, init cfg = Some s0 ->
